@@ -599,6 +599,21 @@ def run(ctx):
                  '<xs:element name="tree" type="t:Node"/></xs:schema>')
     for k, (oname, opts, mut) in enumerate(osets):
         generation_case(ctx, "xsd", {"h.xsd": ext_cycle}, ["h.xsd"], oname, opts, mut, traces, f"ext-cycle-{k}", must_generate=True)
+    # compound fields with AMBIGUOUS choices (two members of one type get reference classes of their own) whose names
+    # meet the names of sibling anonymous types after cleaning - case, punctuation, digits - with and without unnesting
+    amb = ('<xs:schema xmlns:xs="http://www.w3.org/2001/XMLSchema" targetNamespace="urn:h" xmlns:t="urn:h" elementFormDefault="qualified">'
+           '<xs:element name="root"><xs:complexType><xs:choice maxOccurs="unbounded">'
+           '<xs:element name="foo.bar"><xs:complexType><xs:sequence><xs:element name="v" type="xs:int"/></xs:sequence></xs:complexType></xs:element>'
+           '<xs:element name="foo_bar" type="xs:string"/><xs:element name="other" type="xs:string"/>'
+           '<xs:element name="item1"><xs:complexType><xs:sequence><xs:element name="w" type="xs:int"/></xs:sequence></xs:complexType></xs:element>'
+           '<xs:element name="ITEM.1" type="xs:int"/><xs:element name="n" type="xs:int"/>'
+           '</xs:choice></xs:complexType></xs:element></xs:schema>')
+    for k, (oname, opts) in enumerate((("compound-nested", {"compound_fields.enabled": True}), ("compound-unnest", {"compound_fields.enabled": True, "unnest_classes": True}),
+                                       ("compound-nested-frozen", {"compound_fields.enabled": True, "format.frozen": True}))):
+        generation_case(ctx, "xsd", {"h.xsd": amb}, ["h.xsd"], oname, opts, None, traces, f"ambiguous-choices-{k}", must_generate=True)
+        # (without a target namespace the reference classes are named after the elements alone)
+        bare = amb.replace(' targetNamespace="urn:h" xmlns:t="urn:h" elementFormDefault="qualified"', "")
+        generation_case(ctx, "xsd", {"h.xsd": bare}, ["h.xsd"], oname, opts, None, traces, f"ambiguous-choices-bare-{k}", must_generate=True)
     # the finding F47 is exercised by its reproducer in every run (and its counterpart, the same key naming a VALUE)
     generation_case(ctx, "json-sample", {"h.json": '{"a\\nb": {"k": 1}}'}, ["h.json"], "namespaces-camel", osets[5][1], osets[5][2], traces, "f47")
     generation_case(ctx, "json-sample", {"h.json": '{"a\\nb": 1, "c\\"d": [2]}'}, ["h.json"], "namespaces-camel", osets[5][1], osets[5][2], traces, "f47-ok")
